@@ -105,6 +105,7 @@ def project_facts(files):
     bare_genexp_targets = set()
     class_nested_scope_loads = set()
     all_module_globals, all_class_attrs = set(), set()
+    super_call_keywords, from_imported_names = set(), set()
     for path in files:
         if path.endswith(".py") and not path.endswith("__init__.py"):
             leafs.setdefault(path.split("/")[-1], []).append(path)
@@ -194,6 +195,11 @@ def project_facts(files):
             if isinstance(n, ast.FormattedValue):
                 fstring_names |= {t.id for t in ast.walk(n) if isinstance(t, ast.Name)}
                 fstring_names |= {t.attr for t in ast.walk(n) if isinstance(t, ast.Attribute)}
+            if (isinstance(n, ast.Call) and isinstance(n.func, ast.Attribute) and isinstance(n.func.value, ast.Call)
+                    and isinstance(n.func.value.func, ast.Name) and n.func.value.func.id == "super"):
+                super_call_keywords.update(kw.arg for kw in n.keywords if kw.arg)
+            if isinstance(n, ast.ImportFrom):
+                from_imported_names.update(a.name for a in n.names)
             if isinstance(n, ast.comprehension):
                 comp_targets |= {t.id for t in ast.walk(n.target) if isinstance(t, ast.Name)}
             if (isinstance(n, ast.Call) and len(n.args) == 1 and not n.keywords and isinstance(n.args[0], ast.GeneratorExp)
@@ -237,7 +243,10 @@ def project_facts(files):
             "inherited_members": {m for c, ms in class_members.items() if c in base_names for m in ms},
             "ambiguous_members": ambiguous_members, "bare_genexp_targets": bare_genexp_targets,
             "class_nested_scope_loads": class_nested_scope_loads,
-            "global_and_class_attr": all_module_globals & all_class_attrs}
+            "global_and_class_attr": all_module_globals & all_class_attrs,
+            "super_call_keywords": super_call_keywords,
+            # project modules that some module imports with `from package import module`
+            "from_imported_modules": from_imported_names & {p.split("/")[-1][:-3] for p in files if p.endswith(".py")}}
 
 
 def stream(text):
@@ -368,7 +377,12 @@ def run_case(spec):
             label = None
             unique = bool(spec.get("unique"))
             ukey = "unique-names" if spec.get("unique") == 1 else "unique-names+class-attribute-spelled-like-global"
-            if unique:
+            if old in facts["from_imported_modules"] and (not tok or unique):
+                # a module (renamed as a resource, or through any of its name tokens)
+                label = "module-imported-with-from-package-import-module"
+            elif unique and tok and old in facts["super_call_keywords"]:
+                label = "parameter-passed-by-keyword-through-super()"
+            elif unique:
                 # spellings are unique, so these classes are about the renamed binding itself
                 if tok and hasattr(builtins, old):
                     label = "builtin-name"
